@@ -85,6 +85,10 @@ def jobs(tier):
                                 crosscheck=10))
     for issuer in ('deriver', 'flowstep'):
         for k in range(len(KINDS)):
+            if KINDS[k] == 'generate_over':
+                # a step replaced in place in the middle of a step phase:
+                # the statement does not say which object runs in that phase
+                continue
             out.append(dict(name='%s-flow-%s' % (issuer, KINDS[k]),
                             flavor='flow', ops=[k], issuer=issuer,
                             budget_s=100 if q else 900))
